@@ -29,9 +29,12 @@
      error reply must leave the store untouched WITHOUT any help from the caller. A panic
      (balance overflow in AddCoins, supply total overflow in RecomputeSupply) is a
      transaction abort: the driver discards the message's cache layer, as runTx does.
-   * InputOutputCoins debits inputs one by one and is atomic only at message level (the bank
-     handler returns the error and runTx rolls the message back); its error replies are
-     therefore modelled - and replayed - with the message-level rollback.
+   * InputOutputCoins (replayed through the entry points of a MsgMultiSend: msg.ValidateBasic, then
+     the bank handler) debits inputs one by one and is atomic only at message level (the handler
+     returns the error and runTx rolls the message back); its error replies are therefore modelled -
+     and replayed - with the message-level rollback. An unbalanced multi-send is "mismatch"; the
+     code today PANICS instead (Coin.IsEqual on different denoms) when both totals have the same
+     number of denominations but different ones - rejected either way, compared as rejected.
    * SendCoinsUnrestricted / AddCoins / MintCoins with an empty amount still create the
      recipient account (ensureAccount); SendCoins returns before that. Modelled as is.
    * Storage-deposit lock / refund are SendCoinsUnrestricted at this level (vm keeper,
@@ -48,7 +51,8 @@ CONSTANTS Addrs,      \* addresses; must contain "coll" (fee collector)
           MaxLen,     \* bound on the history length
           MaxTime,    \* block time runs 0..MaxTime
           RawOps,     \* BOOLEAN: generate the calls that do not maintain supply (genesis style)
-          IOAmts,     \* amounts used by the multi-send shapes (non-zero elements of [Denoms -> Nat])
+          IOIns,      \* input lists of the multi-sends: set of sequences (1..2) of [a, amt], amt non-zero over Denoms
+          IOOuts,     \* output lists, same shape; every input list is combined with every output list
           Genesis     \* sequence of [a, kind, wl, amt, vs]: initial accounts, applied like gnoland's applyBalance
 
 Denoms == {"u", "t"}
@@ -154,9 +158,16 @@ RECURSIVE IOOut(_, _, _)
 IOOut(S, outs, k) ==
   IF k > Len(outs) THEN Ok(S)
   ELSE Then(AddRes(S, outs[k].a, outs[k].amt), LAMBDA s1 : IOOut(s1, outs, k + 1))
+RECURSIVE SumAmt(_, _, _)
+SumAmt(xs, k, d) == IF k > Len(xs) THEN 0 ELSE xs[k].amt[d] + SumAmt(xs, k + 1, d)
+\* ValidateInputsOutputs (MsgMultiSend.ValidateBasic, and the only conservation guard inside InputOutputCoins):
+\* accepted iff for EVERY denomination the inputs sum to what the outputs sum to - a denomination that appears on one
+\* side only is a mismatch like any other
+Balanced(ins, outs) == \A d \in Denoms : SumAmt(ins, 1, d) = SumAmt(outs, 1, d)
 IORes(S, t, rst, ins, outs) ==
-  LET r == Then(IOIn(S, t, rst, ins, 1), LAMBDA s1 : IOOut(s1, outs, 1))
-  IN IF r.err # "none" THEN Err(r.err, S) ELSE r                    \* message-level rollback (header)
+  IF ~Balanced(ins, outs) THEN Err("mismatch", S)
+  ELSE LET r == Then(IOIn(S, t, rst, ins, 1), LAMBDA s1 : IOOut(s1, outs, 1))
+       IN IF r.err # "none" THEN Err(r.err, S) ELSE r               \* message-level rollback (header)
 
 \* supply.go
 MintRes(S, a, amt) ==
@@ -248,10 +259,8 @@ SetRestricted(b) ==
 
 NonZero == {x \in AmtSet : ~IsZero(x)}
 In(a, x) == [a |-> a, amt |-> x]
-IOShapes ==
-  {<< <<In(i1, x)>>, <<In(o1, x)>> >> : i1 \in Addrs, o1 \in Addrs, x \in IOAmts} \cup
-  {<< <<In(i1, Plus(x, y))>>, <<In(o1, x), In(o2, y)>> >> : i1 \in Addrs, o1 \in Addrs, o2 \in Addrs, x \in IOAmts, y \in IOAmts} \cup
-  {<< <<In(i1, x), In(i2, y)>>, <<In(o1, Plus(x, y))>> >> : i1 \in Addrs, i2 \in Addrs, o1 \in Addrs, x \in IOAmts, y \in IOAmts}
+\* a multi-send: any input list with any output list (1-2 entries each, multi-denomination amounts) - balanced or not
+IOShapes == IOIns \X IOOuts
 
 SignerSeqs == {<<x>> : x \in Addrs} \cup {<<p[1], p[2]>> : p \in {q \in Addrs \X Addrs : q[1] # q[2]}}
 
